@@ -7,6 +7,7 @@ import (
 	"fmt"
 	"strings"
 
+	api "k8s.io/api/core/v1"
 	networking "k8s.io/api/networking/v1"
 	"sigs.k8s.io/controller-runtime/pkg/client"
 
@@ -134,6 +135,13 @@ func (o *Op) Object(certs *Certs) (client.Object, error) {
 			data["tls.crt"], data["tls.key"] = crt, key
 		case o.Sec == "bad":
 			data["tls.crt"], data["tls.key"] = []byte("not a certificate"), []byte("not a key")
+		case o.Sec == "bad:mismatch":
+			crt, _ := certs.Get(name)
+			_, key := certs.Get(name + "-other")
+			data["tls.crt"], data["tls.key"] = crt, key
+		case o.Sec == "bad:nokey":
+			crt, _ := certs.Get(name)
+			data["tls.crt"] = crt
 		case strings.HasPrefix(o.Sec, "auth:"):
 			data["auth"] = []byte(strings.Replace(o.Sec[5:], ":", "::", 1) + "\n")
 		case strings.HasPrefix(o.Sec, "ca:"):
@@ -143,7 +151,11 @@ func (o *Op) Object(certs *Certs) (client.Object, error) {
 		default:
 			return nil, fmt.Errorf("unknown secret content %q", o.Sec)
 		}
-		return kobj.Secret(ns, name, data), nil
+		sec := kobj.Secret(ns, name, data)
+		if _, isTLS := data["tls.crt"]; isTLS {
+			sec.Type = api.SecretTypeTLS
+		}
+		return sec, nil
 	case "cm":
 		return kobj.ConfigMap(ns, name, o.Data), nil
 	case "class":
